@@ -273,6 +273,52 @@ func hostResult(op int, a, b *variants.Variant) (*variants.Variant, bool) {
 	return nil, false
 }
 
+// hostNumConv converts a numeric value to another numeric type with the host's own conversions (truncation toward
+// zero for float -> integer, one rounding for integer -> float); independent of the library's Convert.
+func hostNumConv(b *variants.Variant, t variants.VariantType) (*variants.Variant, bool) {
+	var f float64
+	var i int64
+	isf := false
+	switch b.Type() {
+	case variants.Integer:
+		i = int64(b.AsInteger())
+	case variants.Long:
+		i = b.AsLong()
+	case variants.Float:
+		f, isf = float64(b.AsFloat()), true
+	case variants.Double:
+		f, isf = b.AsDouble(), true
+	default:
+		return nil, false
+	}
+	if isf && (f != f || math.Abs(f) >= 1<<62) {
+		return nil, false // the host's float -> integer conversion is not defined there
+	}
+	switch t {
+	case variants.Integer:
+		if isf {
+			return variants.VariantFromInteger(int(f)), true
+		}
+		return variants.VariantFromInteger(int(i)), true
+	case variants.Long:
+		if isf {
+			return variants.VariantFromLong(int64(f)), true
+		}
+		return variants.VariantFromLong(i), true
+	case variants.Float:
+		if isf {
+			return variants.VariantFromFloat(float32(f)), true
+		}
+		return variants.VariantFromFloat(float32(i)), true
+	case variants.Double:
+		if isf {
+			return variants.VariantFromDouble(f), true
+		}
+		return variants.VariantFromDouble(float64(i)), true
+	}
+	return nil, false
+}
+
 func isBoolRes(v *variants.Variant, err error) (bool, bool) {
 	if err != nil || v == nil || v.Type() != variants.Boolean {
 		return false, false
@@ -300,6 +346,18 @@ func runC06(in sx.SX) (sx.SX, string) {
 			w, _ := resSX(want, nil)
 			if sx.Text(w) != sx.Text(obs) {
 				fail = fmt.Sprintf("returned %s, the host arithmetic of the type gives %s", sx.Text(obs), sx.Text(w))
+			}
+		}
+	}
+	// numeric operands of different types: the second is converted by the host's own conversion, then the host
+	// arithmetic of the first operand's type applies (type-unsafe manager; the type-safe one may refuse instead)
+	if fail == "" && binary && a.Type() != b.Type() && err == nil {
+		if cb, ok := hostNumConv(b, a.Type()); ok {
+			if want, ok := hostResult(op, a, cb); ok {
+				w, _ := resSX(want, nil)
+				if sx.Text(w) != sx.Text(obs) {
+					fail = fmt.Sprintf("returned %s; the host conversion of the second operand followed by the host arithmetic of the first operand's type gives %s", sx.Text(obs), sx.Text(w))
+				}
 			}
 		}
 	}
